@@ -98,6 +98,10 @@ def correspond(ctx, scale):
                 dist['masked'] += 1
             if mode == 'frozen':
                 kwargs['freeze_codebook'] = True
+            if 'mask' not in kwargs and (t + ci) % 4 == 3:
+                # per-call option: target codes for the cross-entropy loss (`indices=`); the codebook statistics must follow the same law
+                kwargs['indices'] = torch.randint(0, K, (b, n, heads) if heads > 1 else (b, n))
+                dist['with_target_indices'] = dist.get('with_target_indices', 0) + 1
             vq.train(mode != 'eval')
             if rng.random() < 0.3:
                 x = x.clone().requires_grad_(False)
@@ -181,7 +185,11 @@ def residual_cases(ctx, rng, scale, dist, failures):
                 cb.forward = mk(cb, orig)
             try:
                 state0 = vqrec.cb_state(cbs[0])
-                rvq(x)
+                if (t + ci) % 2 == 1:
+                    rvq(x, indices=torch.randint(0, K, (2, 4, nq)))       # cross-entropy-to-target-codes call: the EMA / end-of-forward update still applies
+                    dist['with_target_indices'] = dist.get('with_target_indices', 0) + 1
+                else:
+                    rvq(x)
             except Exception as ex:
                 failures.append({'key': f'rvq:exception:{type(ex).__name__}', 'what': f'ResidualVQ({kw}) raised {ex!r}', 'case': dict(kw=kw)})
                 break
